@@ -54,7 +54,20 @@ SCHEMAS = {
 }
 TABLES = list(SCHEMAS)
 
-UNKNOWN_TIME_BITS = 0x7FF8000000000001
+# columns that set_columns / append_columns accept as omitted: fixed column index -> the value
+# the NEW rows get; ragged column indexes whose new cells are then empty
+OPTIONAL = {
+    "individuals": ({}, [0, 1, 2]),
+    "nodes": ({2: -1, 3: -1}, [0]),
+    "edges": ({}, [0]),
+    "migrations": ({}, [0]),
+    "sites": ({}, [1]),
+    "mutations": ({2: 0x7FF874736B697421, 3: -1}, [1]),
+    "populations": ({}, []),
+    "provenances": ({}, []),
+}
+
+UNKNOWN_TIME_BITS = 0x7FF874736B697421     # TSK_UNKNOWN_TIME_HEX (c/tskit/core.h)
 
 
 def f2b(x):
@@ -81,13 +94,29 @@ class RefError(Exception):
         self.why = why
 
 
-def wf_columns_why(nf, nr, cols, md=None):
+def wf_columns_why(nf, nr, cols, md=None, optional=None):
     """rows_of(columns) by the definition of the ragged encoding: (rows, None), or
     (None, why) when the columns are not a well-formed encoding (equal lengths, offsets
     start at 0, are non-decreasing and end at the data length)."""
     fixed, ragged = cols["f"], cols["r"]
     if len(fixed) != nf or len(ragged) != nr:
         return None, "shape"
+    if any(c is None for c in fixed) or any(r is None for r in ragged):
+        # omitted optional columns: the new rows get the default value / an empty cell
+        fdef, ropt = optional or ({}, [])
+        present = [c for c in fixed if c is not None]
+        if any(c is None and j not in fdef for j, c in enumerate(fixed)) or \
+                any(r is None and j not in ropt for j, r in enumerate(ragged)):
+            return None, "required-column-missing"
+        if present:
+            n0 = len(present[0])
+        else:
+            firstr = next((r for r in ragged if r is not None), None)
+            if firstr is None or len(firstr[1]) < 1:
+                return None, "shape"
+            n0 = len(firstr[1]) - 1
+        fixed = [([fdef[j]] * n0 if c is None else c) for j, c in enumerate(fixed)]
+        ragged = [([[], [0] * (n0 + 1)] if r is None else r) for r in ragged]
     n = None
     for c in fixed:
         if n is None:
@@ -226,7 +255,7 @@ class RefTable:
             self.rows = []
             return None
         if k in ("set_columns", "append_columns"):
-            new, why = wf_columns_why(self.nf, self.nr, op[1], self.md)
+            new, why = wf_columns_why(self.nf, self.nr, op[1], self.md, OPTIONAL[self.name])
             if new is None:
                 raise RefError(None, why)
             self.rows = (rows if k == "append_columns" else []) + new
@@ -354,10 +383,12 @@ class Impl:
         import numpy as np
         kw = {}
         for (cn, kind), v in zip(self.fixed, cols["f"]):
-            kw[cn] = np_of(kind, v)
-        for (cn, kind, _), (data, off) in zip(self.ragged, cols["r"]):
-            kw[cn] = np_of(kind, data)
-            kw[cn + "_offset"] = np.array(off, dtype=np.uint64)
+            if v is not None:
+                kw[cn] = np_of(kind, v)
+        for (cn, kind, _), r in zip(self.ragged, cols["r"]):
+            if r is not None:
+                kw[cn] = np_of(kind, r[0])
+                kw[cn + "_offset"] = np.array(r[1], dtype=np.uint64)
         return kw
 
     def build(self, rows):
@@ -454,7 +485,7 @@ def overread_hazard(impl, op):
         return len(op[2]) > n
     if k in ("set_columns", "append_columns"):
         f, r = op[1]["f"], op[1]["r"]
-        return bool(f) and r[impl.md] is not None and len(r[impl.md][1]) > len(f[0]) + 1
+        return bool(f) and f[0] is not None and r[impl.md] is not None and len(r[impl.md][1]) > len(f[0]) + 1
     if k == "setattr":
         if op[1] == "r" and op[2] == impl.md and op[3] == "offset":
             return len(op[4]) > n + 1
@@ -559,6 +590,19 @@ def break_columns(rng, cols):
     return cols
 
 
+def omit_optional(rng, name, cols, rows):
+    """Leave out optional columns, individually and in combination (the rows then must show
+    the defaults: the generated rows are adjusted by the caller's reference, not here)."""
+    fdef, ropt = OPTIONAL[name]
+    cand = [("f", j) for j in fdef] + [("r", j) for j in ropt]
+    if not cand:
+        return cols
+    k = rng.choice([1, 1, 2, len(cand)])
+    for kind, j in rng.sample(cand, min(k, len(cand))):
+        cols[kind][j] = None
+    return cols
+
+
 def gen_ops(rng, name, nops, p_bad=0.04, incr=0):
     ref = RefTable(name)
     _, fixed, ragged, selfref, md = SCHEMAS[name]
@@ -566,7 +610,7 @@ def gen_ops(rng, name, nops, p_bad=0.04, incr=0):
     ops = []
     weights = [("add_row", 22), ("append", 6), ("getitem", 8), ("slice", 6), ("mask", 4), ("ids", 4),
                ("iter", 2), ("setitem", 9), ("setitem_from", 3), ("truncate", 5), ("keep_rows", 8),
-               ("clear", 1), ("set_columns", 4), ("append_columns", 5), ("packset", 4), ("setattr", 5),
+               ("clear", 1), ("set_columns", 4), ("append_columns", 8), ("packset", 4), ("setattr", 5),
                ("drop_metadata", 1 if md is not None else 0), ("copy", 2), ("extend", 4)]
     names = [w[0] for w in weights]
     ws = [w[1] for w in weights]
@@ -644,6 +688,8 @@ def gen_ops(rng, name, nops, p_bad=0.04, incr=0):
             cols = columns_of(nf, nr, rows)
             if bad or rng.random() < 0.03:
                 cols = break_columns(rng, cols)
+            elif rng.random() < 0.45:
+                cols = omit_optional(rng, name, cols, rows)
             op = [k, cols]
         elif k == "packset":
             j = rng.randrange(nr)
@@ -748,7 +794,7 @@ def qbools(bs):
 
 
 def qcols(c):
-    return "(%s, %s)" % (qll(c["f"]), ql(c["r"], lambda x: "None" if x is None else "(Some (%s, %s))" % (ql(x[0]), ql(x[1]))))
+    return "(%s, %s)" % (ql(c["f"], lambda x: "None" if x is None else "(Some %s)" % ql(x)), ql(c["r"], lambda x: "None" if x is None else "(Some (%s, %s))" % (ql(x[0]), ql(x[1]))))
 
 
 def qop(op):
@@ -848,6 +894,39 @@ class TableOps(Family):
     prelude = "From TskVerif Require Import Base.Common C13.Model C13.Harness.\nOpen Scope Z_scope."
 
     def generate(self, rng, tier):
+        # every non-empty subset of the optional columns of every table left out of
+        # append_columns (on a NON-EMPTY table whose rows hold non-default values there) and
+        # of set_columns, followed by more appends
+        import itertools
+        for name in TABLES:
+            fdef, ropt = OPTIONAL[name]
+            cand = [("f", j) for j in fdef] + [("r", j) for j in ropt]
+            _, fixed, ragged, selfref, _ = SCHEMAS[name]
+            nf, nr = len(fixed), len(ragged)
+            for k in range(1, len(cand) + 1):
+                for sub in itertools.combinations(cand, k):
+                    def rows(m, base):
+                        out = []
+                        for _ in range(m):
+                            r = rand_row(rng, name, base)
+                            for kind, j in cand:     # non-default values in the optional columns
+                                if kind == "f":
+                                    r[0][j] = rng.randrange(0, 5) if fixed[j][1] == "i32" else FLOATS[1 + rng.randrange(4)]
+                                elif not r[1][j]:
+                                    r[1][j] = [65 + rng.randrange(4)] if ragged[j][1] == "i8" else [rng.choice(FLOATS) if ragged[j][1] == "f64" else 0]
+                            out.append(r)
+                        return out
+
+                    def omitted(m, base):
+                        c = columns_of(nf, nr, rows(m, base))
+                        for kind, j in sub:
+                            c[kind][j] = None
+                        return c
+                    ops = [["add_row", r] for r in rows(3, 3)]
+                    ops += [["append_columns", omitted(2, 5)], ["iter"], ["append_columns", omitted(3, 8)],
+                            ["getitem", 1], ["set_columns", omitted(2, 2)], ["append_columns", omitted(1, 3)],
+                            ["append_columns", columns_of(nf, nr, rows(2, 5))], ["iter"]]
+                    yield {"table": name, "incr": rng.choice([0, 1]), "ops": ops}
         # exhaustive-ish small scope first: every table, every increment, short sequences
         per = 40 if tier == "quick" else 600
         for name in TABLES:
